@@ -494,7 +494,10 @@ class SharesManager(BaseManager):
             parent = parents[-1]
             self._move_items(shared_directory.items, parent)
 
-        self._cleanup_term_map()
+        # The removed directory and its items reference each other and stay
+        # alive (also in the weak sets of the term map) until the cyclic GC
+        # runs: rebuild the map from the remaining directories
+        self.rebuild_term_map()
 
         self._event_bus.emit_sync(SharedDirectoryChangeEvent(shared_directory))
 
